@@ -1,10 +1,12 @@
 import CJ.Drv.Loop
 import CJ.Drv.Registry
+import CJ.Drv.RegistryX
 import CJ.Drv.Wrap
 /-! Driver for C02: registry histories followed by offers to the classifier models. -/
 open CJ.Drv
 
 def main : IO Unit := runDriver fun
   | "registry" :: args => Registry.handle args
+  | "registryx" :: args => RegistryX.handle args
   | "regwrap" :: args => Wrap.handle args
   | _ => none
